@@ -3,16 +3,17 @@
 proof:  PPLV.Props.C06BB over the code-shaped model lean/PPLV/Solver/BB.lean (solve_mip, the MIP case of
         solve(), choose_branching_variable, is_mip_satisfiable, the MIP case of is_satisfiable()) with the LP
         machinery as an oracle whose hypothesis is the statement of C06.lp_spec (plus the point it returns);
-        PPLV.Props.C06Tab (tableau set-up / phases, when present).
 tie:    harness/c06_bb.cc calls the REAL private static solve_mip / is_mip_satisfiable /
         choose_branching_variable on Inherit_Constraints copies of every node of the tree (the node objects are
         built exactly as the library builds them) and journals, per node, the real LP answer, the entry
         incumbent and the real result of the whole subtree; pplv_mip --bb replays the model with the
         journalled LP answers as oracle and compares status / incumbent / point exactly, node for node,
         checks every LP answer against the verified LP reference (the oracle hypothesis), and judges the
-        conclusions of C06.solve_mip_sound on the real result of every node with the verified MIP reference.
+        conclusions of C06.solve_mip_sound on the real result of every node with the verified MIP reference;
+        independently, the model is run with the PROVED LP reference as oracle (its own vertices / tree) and
+        its final answer — the true one by C06.solve_mip_sound + C06.ref_oracle_ok — is compared with solve().
         The public answers of the same objects go through the existing judges of checks/c06.py.
-A `lp-oracle` / `sub-answer` / `sat-answer` failure is a wrong answer of the real code on concrete data: VIOLATION with the
+A `lp-oracle` / `sub-answer` / `sat-answer` / `top-ref` failure is a wrong answer of the real code on concrete data: VIOLATION with the
 instance as replay.  A `node` / `sat-node` / `branch-var` / `top` difference alone (real result right, model
 different) is a broken correspondence: VIOLATION … no-failing-input-found.
 """
@@ -87,16 +88,16 @@ def replay(ctx, path):
 def run(ctx):
     """returns the list of broken proof obligations (the caller reports them)."""
     from . import c06 as base
-    props = list(PROPS)
-    if os.path.exists(os.path.join(LEAN, "PPLV", "Props", "C06Tab.lean")):
-        props.append("PPLV.Props.C06Tab")
+    props = list(PROPS)          # (PPLV.Props.C06Tab is proved by checks/c06_tab.py)
     broken = ctx.prove(props)
     quick = ctx.tier == "quick"
+    if not quick:
+        broken += ctx.leanchecker(props)
     drv = ctx.ensure_pplv("pplv_mip")
     h = ctx.compile_harness("c06_bb.cc")
     wd = os.path.join(ctx.workdir(), "bb")
     os.makedirs(wd, exist_ok=True)
-    n_cases = int(os.environ.get("VERIF_C06_BB_CASES", "0")) or (4800 if quick else 96000)
+    n_cases = int(os.environ.get("VERIF_C06_BB_CASES", "0")) or (3600 if quick else 96000)
     nproc = 12
     per = (n_cases + nproc - 1) // nproc
 
@@ -116,6 +117,17 @@ def run(ctx):
         return lines, verd, stats, old, overd
 
     results = []
+    # regression roots first (2x = 1, 2x + 2y = 1, unbounded relaxation with a fractional vertex, knapsack, …)
+    corpus = os.path.join(VERIF, "corpus", "C06", "bb_roots.txt")
+    if os.path.exists(corpus):
+        jp = os.path.join(wd, "corpus.journal")
+        rc, _, err = ctx.run([h, "--replay", corpus], stdout_path=jp, timeout=600)
+        if rc != 0:
+            ctx.fatal("harness c06_bb --replay failed rc=%s %s" % (rc, (err or "")[-300:]))
+        lines = open(jp).read().splitlines()
+        verd, stats = bb_verdicts(ctx, drv, lines, os.path.join(wd, "corpus.in"))
+        old = [l for l in lines if l.split(" ", 1)[0] in OLD_GRAMMAR]
+        results.append((lines, verd, stats, old, base.run_driver(ctx, drv, old, os.path.join(wd, "corpus_o.in"))))
     with cf.ThreadPoolExecutor(nproc) as ex:
         for r in ex.map(work, range(nproc)):
             if r is not None:
@@ -171,7 +183,7 @@ def run(ctx):
             cl = cases.get(cid, [])
             root = next((l for l in cl if l.startswith("root ")), "")
             kinds = sorted(set(v[2] for v in vs))
-            wrong_answer = [v for v in vs if v[2] in ("lp-oracle", "sub-answer", "sat-answer")]
+            wrong_answer = [v for v in vs if v[2] in ("lp-oracle", "sub-answer", "sat-answer", "top-ref")]
             first = (wrong_answer or vs)[0]
             cls = "+".join(kinds)
             reported[cls] += 1
@@ -179,10 +191,12 @@ def run(ctx):
                 continue
             found = bool(wrong_answer)
             if found:
-                site = {"sub-answer": "MIP_Problem::solve_mip", "sat-answer": "MIP_Problem::is_mip_satisfiable"}.get(
+                site = {"sub-answer": "MIP_Problem::solve_mip", "sat-answer": "MIP_Problem::is_mip_satisfiable",
+                        "top-ref": "MIP_Problem::solve"}.get(
                     first[2], "MIP_Problem::lp_of_bb_node")
                 what = ("C06 branch-and-bound: the real %s at node %s of case %s is wrong: %s" %
-                        ({"lp-oracle": "LP answer", "sub-answer": "solve_mip result", "sat-answer": "is_mip_satisfiable result"}[first[2]],
+                        ({"lp-oracle": "LP answer", "sub-answer": "solve_mip result", "sat-answer": "is_mip_satisfiable result",
+                          "top-ref": "solve() answer (against the model run with the proved LP reference as oracle)"}[first[2]],
                          first[3], cid, first[4][:300]))
             else:
                 site = "correspondence:" + cls
